@@ -335,11 +335,13 @@ func (fp *FactPat) Match(f Fact, b Bind) (Bind, bool) {
 	nb := b.clone()
 	switch fp.Kind {
 	case "cmp":
-		if f.Op == fp.Op && matchTerm(fp.A, f.A, nb) && matchTerm(fp.B, f.B, nb) {
+		fop, fA, fB := canonLenFact(f.Op, f.A, f.B)
+		pop, pA, pB := canonLenPat(fp.Op, fp.A, fp.B)
+		if fop == pop && matchTerm(pA, fA, nb) && matchTerm(pB, fB, nb) {
 			return nb, true
 		}
 		nb = b.clone()
-		if flipOp[f.Op] == fp.Op && matchTerm(fp.A, f.B, nb) && matchTerm(fp.B, f.A, nb) {
+		if flipOp[fop] == pop && matchTerm(pA, fB, nb) && matchTerm(pB, fA, nb) {
 			return nb, true
 		}
 		return nil, false
@@ -443,4 +445,57 @@ func Nearest(set FactSet, pat string, n int) []string {
 		}
 	}
 	return out
+}
+
+// A length is never negative: `len(x) <= 0`, `len(x) < 1` and `len(x) == 0`
+// are the same fact, and so are `len(x) > 0`, `len(x) >= 1`, `len(x) != 0`.
+// Facts and patterns are brought to the ==/!= 0 spelling before matching.
+func canonLenOp(op, c string, lenLeft bool) (string, bool) {
+	if !lenLeft {
+		op = flipOp[op]
+	}
+	switch {
+	case c == "0" && (op == "<=" || op == "=="), c == "1" && op == "<":
+		return "==", true
+	case c == "0" && (op == ">" || op == "!="), c == "1" && op == ">=":
+		return "!=", true
+	}
+	return "", false
+}
+
+var zeroTerm = &Term{Op: "const", Name: "0"}
+
+func canonLenFact(op string, a, b *Term) (string, *Term, *Term) {
+	if a == nil || b == nil {
+		return op, a, b
+	}
+	if (a.Op == "len" || a.Op == "cap") && b.Op == "const" {
+		if nop, ok := canonLenOp(op, b.Name, true); ok {
+			return nop, a, zeroTerm
+		}
+	}
+	if (b.Op == "len" || b.Op == "cap") && a.Op == "const" {
+		if nop, ok := canonLenOp(op, a.Name, false); ok {
+			return nop, b, zeroTerm
+		}
+	}
+	return op, a, b
+}
+
+func canonLenPat(op string, a, b *pnode) (string, *pnode, *pnode) {
+	if a == nil || b == nil {
+		return op, a, b
+	}
+	zero := &pnode{kind: "const", name: "0"}
+	if a.kind == "len" && b.kind == "const" {
+		if nop, ok := canonLenOp(op, b.name, true); ok {
+			return nop, a, zero
+		}
+	}
+	if b.kind == "len" && a.kind == "const" {
+		if nop, ok := canonLenOp(op, a.name, false); ok {
+			return nop, b, zero
+		}
+	}
+	return op, a, b
 }
